@@ -35,6 +35,9 @@ pub struct Case {
     /// (stopped before its k-th mutating operation), so that three bands are stitched.
     #[serde(default)]
     pub pre_stitch: Option<(u16, u16)>,
+    /// One storage error during the restore: (ordinal of the failing operation, kind).
+    #[serde(default)]
+    pub fault: Option<(u8, u8)>,
 }
 
 fn sentinel_target() -> BoxedStrategy<String> {
@@ -75,9 +78,9 @@ fn strategy(_tier: Tier) -> BoxedStrategy<Case> {
         prop::option::weighted(0.3, any::<u16>()),
         prop::collection::vec(prop::sample::select(vec!["a", "/a", "*.txt", "b*", "é", "**/x"]).prop_map(String::from), 0..2),
         prop::option::weighted(0.35, (any::<u16>(), 0u16..30, sentinel_target())),
-        prop::option::weighted(0.5, (any::<u16>(), 0u16..40)),
+        (prop::option::weighted(0.5, (any::<u16>(), 0u16..40)), prop::option::weighted(0.25, (0u8..10, 0u8..4))),
     )
-        .prop_map(|((opts, mut tree), links, dest, overwrite, subtree, exclude, stitch, pre_stitch)| {
+        .prop_map(|((opts, mut tree), links, dest, overwrite, subtree, exclude, stitch, (pre_stitch, fault))| {
             let dirs = tree.dirs();
             let mut last: Option<(String, String)> = None; // (dir, name) of the previous link
             for (d, name, target, meta) in links {
@@ -100,7 +103,7 @@ fn strategy(_tier: Tier) -> BoxedStrategy<Case> {
                     last = Some((dir, name));
                 }
             }
-            Case { opts, tree, dest, overwrite, subtree, exclude, stitch, pre_stitch }
+            Case { opts, tree, dest, overwrite, subtree, exclude, stitch, pre_stitch, fault }
         })
         .boxed()
 }
@@ -154,6 +157,7 @@ fn run(case: &Case, cx: &mut Cx) -> CaseResult {
 
     let mut t0 = t0;
     let mut removed_parent: Option<String> = None;
+    let mut replaced_dir: Option<String> = None;
     if let (Some(_), Some((ri, rk))) = (&case.stitch, &case.pre_stitch) {
         // an earlier interrupted backup in which something had been removed
         let cands: Vec<String> = t0.0.keys().filter(|k| k.as_str() != "/").cloned().collect();
@@ -218,6 +222,7 @@ fn run(case: &Case, cx: &mut Cx) -> CaseResult {
                 sel = Sel::Band(stitch_band);
                 stitched = ctl.triggered();
                 listing_tree = t1;
+                replaced_dir = Some(d.clone());
             }
         }
     }
@@ -245,12 +250,20 @@ fn run(case: &Case, cx: &mut Cx) -> CaseResult {
     }
     let subtree: Option<String> = case.subtree.map(|i| {
         let dirs = listing_tree.dirs();
-        dirs[(i as usize * dirs.len()) >> 16].clone()
+        match &replaced_dir {
+            // a third of the time exactly the directory that has become a symlink
+            Some(d) if i % 3 == 0 => d.clone(),
+            _ => dirs[(i as usize * dirs.len()) >> 16].clone(),
+        }
     });
 
     let before_out = outside(&s, "/r/dest");
     let before_dest = tree::snapshot(&dest);
-    let r = ops::restore(&arch, &None, &dest, &sel, subtree.as_deref(), &case.exclude, case.overwrite);
+    let rhook: Hook = case.fault.map(|(nth, kind)| {
+        let plan = Plan::FailAtIndices([(nth as usize, crate::hooks::Kind::ALL[kind as usize % 4])].into_iter().collect());
+        Ctl::new(&arch, plan) as Arc<dyn conserve::transport::verif::Interceptor>
+    });
+    let r = ops::restore(&arch, &rhook, &dest, &sel, subtree.as_deref(), &case.exclude, case.overwrite);
     if let Some(p) = &r.panic {
         fail!(format!("C16/restore-panic@{}", ops::panic_site(p)), "{p}");
     }
@@ -291,6 +304,27 @@ fn run(case: &Case, cx: &mut Cx) -> CaseResult {
         }
     }
 
+    // A second restore over the first: the older version, in which the replaced path is a
+    // directory again, restored with `overwrite` into the destination that now holds the
+    // symlink from the version restored first.
+    let mut second = false;
+    if replaced_dir.is_some() && r.result.is_ok() && case.fault.is_none() && subtree.is_none() {
+        second = true;
+        let before2 = outside(&s, "/r/dest");
+        let r2 = ops::restore(&arch, &None, &dest, &Sel::Band(0), None, &case.exclude, true);
+        if let Some(p) = &r2.panic {
+            fail!(format!("C16/restore-panic@{}", ops::panic_site(p)), "{p}");
+        }
+        let after2 = outside(&s, "/r/dest");
+        if let Some((field, msg)) = tree::first_diff(&before2, &after2, CmpOpts::untouched()) {
+            return Err(Failure::new(
+                format!("C16/second-restore-over-first/outside-modified/{field}"),
+                format!("restoring version 0 with overwrite over a restore of {sel:?} changed something outside the destination: {msg} ({})", r2.describe()),
+            ));
+        }
+    }
+    cx.label_if(second, "second-restore-over-first");
+
     // Non-triviality: a restored symlink resolves (from its restored location) to a sentinel.
     let mut hits = false;
     for (p, n) in &after_dest {
@@ -308,6 +342,8 @@ fn run(case: &Case, cx: &mut Cx) -> CaseResult {
     cx.label_if(case.dest == DestState::Populated && !case.overwrite, "refusal-case");
     cx.label_if(case.dest == DestState::Populated && case.overwrite, "overwrite-case");
     cx.label_if(subtree.is_some(), "subtree");
+    cx.label_if(subtree.is_some() && subtree == replaced_dir, "subtree-is-the-replaced-directory");
+    cx.label_if(case.fault.is_some(), "storage-error-during-restore");
     cx.nontrivial = hits || (case.dest == DestState::Populated && !case.overwrite && listing_tree.0.len() > 1);
     Ok(())
 }
@@ -316,7 +352,7 @@ pub fn prop() -> Prop<Case> {
     Prop {
         id: "C16",
         level: "exploration",
-        rule: "case = (options, tree with 1-5 symlinks aimed at sentinel files/directories beside the destination via ../ chains, absolute paths, '..', '/', '.', other names, and other symlinks of the tree (chains); destination absent/empty/pre-populated (with ordinary entries, or with only a lost+found directory); overwrite flag; optional subtree and exclude selection; optionally a later interrupted backup in which a directory was replaced by such a symlink, itself optionally preceded by another interrupted backup in which an entry had been removed (three stitched bands), restored by id). Oracle: recursive lstat+content snapshot (mode, owner, mtime, ctime, inode) of the whole sandbox outside the destination is identical before and after; a pre-populated destination without overwrite must be refused and left identical. Non-trivial = a restored symlink resolves to a sentinel, or the refusal case with a non-empty version; distinct by case hash",
+        rule: "case = (options, tree with 1-5 symlinks aimed at sentinel files/directories beside the destination via ../ chains, absolute paths, '..', '/', '.', other names, and other symlinks of the tree (chains); destination absent/empty/pre-populated (with ordinary entries, or with only a lost+found directory); overwrite flag; optional subtree and exclude selection; optionally a later interrupted backup in which a directory was replaced by such a symlink, itself optionally preceded by another interrupted backup in which an entry had been removed (three stitched bands), restored by id; the subtree is a third of the time exactly the replaced directory; in a quarter of the cases one of the first ten storage operations of the restore fails). Second phase when a directory was replaced by a symlink: the oldest version, in which it is a directory again, is restored with overwrite over the first restore, and the outside snapshot is compared again. Oracle: recursive lstat+content snapshot (mode, owner, mtime, ctime, inode) of the whole sandbox outside the destination is identical before and after; a pre-populated destination without overwrite must be refused and left identical. Non-trivial = a restored symlink resolves to a sentinel, or the refusal case with a non-empty version; distinct by case hash",
         assumptions: &[
             "pre-populated destinations contain only plain files and directories (a hostile destination containing symlinks is outside the statement)",
             "runs as root, so permission errors cannot mask a write-through",
